@@ -207,12 +207,9 @@ def sample_square_global(mode, seed, ga, gb):
 
 @clause('C10.sample_square.nonunique', funcs=('sample.sample_square',))
 def sample_square_nonunique(mode, seed, ga, gb):
-    """sample_square(unique=False): same check; this path has no global draw, so while the C14 defect makes the
-    call raise for every input the case is SKIPped instead of blamed on C10."""
-    try:
-        return _sample_square_pair(False, mode, seed, ga, gb)
-    except Exception as e:
-        return SKIP(f'blocked by known defect C14 (sample_square raises {type(e).__name__} for every input)')
+    """sample_square(unique=False): same check on the path without the uniqueness filter (the pinned tree raised here for
+    every input - repaired by the `fix:` commit recorded for C14; an exception is a failure again)."""
+    return _sample_square_pair(False, mode, seed, ga, gb)
 
 
 def _result(call):
